@@ -88,6 +88,8 @@ def triage(out, judge, n, cases, results, what, stats):
     diverging = []
     for c, r in zip(cases, results):
         stats["steps"] += len(c["acts"])
+        if "harness:" in str(r.get("panic") or ""):
+            raise core.ToolError("the harness itself failed on case %s: %s" % (c["id"], r["panic"]))
         if r.get("panic") or r.get("hang"):
             stats["rejected"] += 1
             if stats["rejected"] <= MAX_REPORT:
